@@ -4,7 +4,7 @@ from __future__ import annotations
 import ast
 from typing import Any, Optional
 
-from .absint import Interp, _Return
+from .absint import Interp, _Break, _Continue, _Return
 from .core import AnalysisError, loc
 from .pm import FuncInfo
 from .shapes import body_no_doc
@@ -26,6 +26,8 @@ def run_block(it: Interp, stmts: list[ast.stmt], env: dict[str, Any], fi: FuncIn
         it.exec_block(stmts, env, fi)
     except _Return as r:
         return True, r.value
+    except (_Continue, _Break):
+        return False, None        # the statements are a loop body: this iteration ends here
     return False, None
 
 
@@ -62,9 +64,11 @@ def check_wrapper(pm: Any, ctx: Any, rule: str, cls_name: str, func_qual_name: s
     if ex is None or gr is None or init is None:
         raise AnalysisError(rule, f"anchor vanished: {cls_name}.execute/get_result/__init__")
     it = Interp(pm)
-    it.native[helper.qual] = lambda *a, **k: ("RESULT", a)
+    it.native[helper.qual] = lambda *a, **k: ("RESULT", tuple(a) + tuple(k.values()))
     op = AObj(cls_name)
-    m1, m2 = AObj("FeatureModel", root=None, ctcs=[]), AObj("FeatureModel", root=None, ctcs=[])
+    from .model import ModelBuilder
+    _mb = ModelBuilder(pm)
+    m1, m2 = _mb.model(None, []), _mb.model(None, [])
     try:
         it.call(init, [op])
         if extra_setup is not None:
